@@ -1172,3 +1172,20 @@ Definition enum_agree_on_shared_names (e : str * str * list (str * Z) * list (st
 Definition shared_numbers (e : str * str * list brow * list brow) : Z :=
   let '(_, _, bundled, reference) := e in
   Zlength (filter (fun x => existsb (fun y => brow_number y =? brow_number x) reference) bundled).
+
+(* ======================================================================================
+   Part 7 — the output file set: every output package directory and each of its ancestors
+   (the root included) receives an __init__.py, so the package is importable
+   ====================================================================================== *)
+Lemma prefixes_nil_in {A} (l : list A) : In [] (prefixes l).
+Proof. destruct l; cbn; auto. Qed.
+
+Lemma prefixes_self_in {A} (l : list A) : In l (prefixes l).
+Proof. induction l as [|a r IH]; cbn; [auto|]. right. now apply in_map. Qed.
+
+Theorem output_dirs_complete D p q :
+  In p (output_packages D) -> In q (prefixes (pkg_dir p)) -> In q (output_dirs D).
+Proof.
+  intros Hp Hq. unfold output_dirs. apply in_flat_map. exists p. split; [|assumption].
+  unfold output_packages in Hp. now rewrite gp_const.
+Qed.
